@@ -1500,6 +1500,12 @@ func (v *Verifier) evalTypeAssert(fr *Frame, st *State, x *ast.TypeAssertExpr, c
 		if commaOk {
 			return TupleVal{[]Val{pl, Scalar{isT, types.Typ[types.Bool]}}}
 		}
+		if iv.ID.Op == "var" && strings.HasPrefix(iv.ID.Name, "pool$get") {
+			// a value taken from a sync.Pool has the type the pool's New function produces (trusted)
+			st.assume(isT)
+			v.intrinsicsUsed["(*sync.Pool).Get: the value has the type the pool's New function produces and is not referenced by anyone else"] = true
+			return pl
+		}
 		if !fr.inSpec {
 			v.oblige(fr, st, "typeassert", x.Pos(), isT, "type assertion may fail")
 		}
